@@ -34,6 +34,13 @@ pub trait Header: Sized {
 //@        requires panics_allowed() || self.declared_total() >= size_of::<Self>(),
 //@        ensures self.declared_total() >= size_of::<Self>(), r == self.declared_total()
 //@end
+
+//@extract multiboot2-common/src/lib.rs :: trait Header :: fn set_size
+//@  novis
+//@  spec:
+//@        requires total_size <= u32::MAX,
+//@        ensures final(self).declared_total() == total_size
+//@end
 }
 
 //@extract multiboot2-common/src/lib.rs :: enum MemoryError
@@ -517,4 +524,13 @@ pub fn walk_collect<'a, H: Header + 'a>(it: &mut TagIter<'a, H>) -> (offs: Ghost
     Ghost(seen)
 }
 
+
 } // verus!
+
+// crate-qualified paths used inside extracted bodies resolve to this file's items (R3)
+pub mod multiboot2_common {
+    pub use super::*;
+}
+pub mod multiboot2 {
+    pub use super::*;
+}
